@@ -88,12 +88,14 @@ impl<'a> TemporalIndexBuilder<'a> {
 
                 let min_ts = *ts_vals_ts.iter().min().unwrap_or(&0);
                 let max_ts = *ts_vals_ts.iter().max().unwrap_or(&0);
-                if min_ts >= 0 && max_ts >= 0 {
-                    let entry = calendars
-                        .entry("timestamp".to_string())
-                        .or_insert_with(|| TemporalCalendarIndex::new("timestamp"));
-                    entry.add_zone_range(zp.id, min_ts as u64, max_ts as u64);
-                }
+                let entry = calendars
+                    .entry("timestamp".to_string())
+                    .or_insert_with(|| TemporalCalendarIndex::new("timestamp"));
+                entry.add_zone_range(
+                    zp.id,
+                    TemporalCalendarIndex::clamp_ts(min_ts),
+                    TemporalCalendarIndex::clamp_ts(max_ts),
+                );
             }
 
             // Build ZTI for each field present in this zone and update calendars
@@ -109,12 +111,14 @@ impl<'a> TemporalIndexBuilder<'a> {
 
                 let min_ts = *ts_vals.iter().min().unwrap_or(&0);
                 let max_ts = *ts_vals.iter().max().unwrap_or(&0);
-                if min_ts >= 0 && max_ts >= 0 {
-                    let entry = calendars
-                        .entry(field.clone())
-                        .or_insert_with(|| TemporalCalendarIndex::new(field.clone()));
-                    entry.add_zone_range(zp.id, min_ts as u64, max_ts as u64);
-                }
+                let entry = calendars
+                    .entry(field.clone())
+                    .or_insert_with(|| TemporalCalendarIndex::new(field.clone()));
+                entry.add_zone_range(
+                    zp.id,
+                    TemporalCalendarIndex::clamp_ts(min_ts),
+                    TemporalCalendarIndex::clamp_ts(max_ts),
+                );
             }
         }
 
